@@ -275,7 +275,12 @@ func c08History(r *verdict.Run, e *emu, rng *rand.Rand, st *linStats, tag string
 			if ext {
 				gen = c08OpExt
 			}
-			plans[c].ops = append(plans[c].ops, linIn{g, gen(rng, g, fmt.Sprintf("%d.%d", c, i))})
+			args := gen(rng, g, fmt.Sprintf("%d.%d", c, i))
+			if ngroups == 1 && rng.Intn(12) == 0 {
+				// (only with a single key group: a flush concerns every key, so the history cannot be partitioned)
+				args = pick2(rng, [][]string{{"FLUSHDB"}, {"FLUSHDB", "ASYNC"}, {"FLUSHALL", "ASYNC"}, {"FLUSHALL", "SYNC"}, {"FLUSHDB", "SYNC"}, {"FLUSHALL"}})
+			}
+			plans[c].ops = append(plans[c].ops, linIn{g, args})
 		}
 	}
 	var mu sync.Mutex
@@ -984,7 +989,7 @@ func c08Run(r *verdict.Run, race bool, nhist, ncons int, tag string) {
 }
 
 func checkC08(r *verdict.Run) {
-	r.Rule = "(1) many small concurrent histories (3-6 connections x 5-10 operations on 1-3 disjoint key groups; single-key read-modify-write and multi-key commands; unique written values) recorded at the client boundary with one monotonic clock and checked for linearizability with porcupine against the reference model (partitioned by key group; a final single-client read of every key is part of the history); " +
+	r.Rule = "(1) many small concurrent histories (3-6 connections x 5-10 operations on 1-3 disjoint key groups; single-key read-modify-write and multi-key commands, FLUSHDB/FLUSHALL [ASYNC|SYNC] in single-group histories; unique written values) recorded at the client boundary with one monotonic clock and checked for linearizability with porcupine against the reference model (partitioned by key group; a final single-client read of every key is part of the history); " +
 		"(2) conservation runs: N x M INCR/DECR/HINCRBY sums, APPEND tokens, unique list ids pushed/popped/moved (exactly once), SMOVE between two sets under SINTERCARD/SUNION observers, MSET tag vectors under MGET observers, MSETNX/DEL all-or-nothing, RENAME ping-pong under EXISTS observers, and atomic views of large values (two distant bytes of a 1 MiB string written by one BITFIELD, a 256 KiB value overwritten by one SETRANGE, 300 hash fields set by one HSET, a 1500-element list that is only rotated, 200 keys written by one MSET and removed by one UNLINK/DEL, 300 members added by one SADD and removed by one SREM) under BITCOUNT/BITFIELD_RO/GET/HVALS/LRANGE/EXISTS/SCARD observers; yields are injected before/after the data store lock. distinct = overlapping command pairs actually observed + conservation kinds"
 	c08Run(r, false, tierPick(r, 300, 10000), tierPick(r, 7, 63), "plain")
 	if r.Tier == "thorough" {
